@@ -6046,6 +6046,13 @@ void UniCompiler::emit_3v(UniOpVVV op, const Operand_& dst_, const Operand_& src
         UniOpVV trunc_op = translate_op(op, UniOpVVV::kModF32S, UniOpVV::kTruncF32S);
         const FloatInst& fi = avx_float_inst[fm];
 
+        if (is_scalar_fp_op(fm)) {
+          dst.set_signature(signature_of_xmm_ymm_zmm[0]);
+          src1v.set_signature(signature_of_xmm_ymm_zmm[0]);
+          if (src2.is_vec())
+            src2.as<Vec>().set_signature(signature_of_xmm_ymm_zmm[0]);
+        }
+
         x86::Vec tmp = new_similar_reg(dst, "@mod_tmp");
         cc->emit(fi.fdiv, tmp, src1v, src2);
         emit_2v(trunc_op, tmp, tmp);
